@@ -959,6 +959,27 @@ pub fn drive_c10(a: &Args) {
     for _ in 0..a.sz(150, 3000) {
         pats.push(random_term(&mut rng, 3, &pool));
     }
+    // literal-like patterns built in different ways (characters, strings, powers of both, concatenated): each
+    // denotes one string; subjects are crafted around that string (inputs only - the oracle is in TLA+)
+    let pieces: Vec<T> = vec![
+        T::Chr(pool.a), T::Chr(pool.b), T::Str(vec![pool.a, pool.b]), T::Str(vec![pool.b, pool.a]),
+        T::Pow(Box::new(T::Chr(pool.a)), 2), T::Pow(Box::new(T::Str(vec![pool.a, pool.b])), 2),
+        T::Loop(Box::new(T::Str(vec![pool.b, pool.a])), 2, Some(2)), T::Pow(Box::new(T::Chr(pool.b)), 3),
+    ];
+    let mut literal_pats: Vec<T> = vec![];
+    for x in &pieces {
+        for y in &pieces {
+            literal_pats.push(T::Cat2(Box::new(x.clone()), Box::new(y.clone())));
+            if a.thorough() || (literal_pats.len() + a.seed as usize) % 3 == 0 {
+                for z in &pieces {
+                    literal_pats.push(T::CatL(vec![x.clone(), y.clone(), z.clone()]));
+                }
+            }
+        }
+    }
+    let n_general = pats.len();
+    pats.extend(literal_pats);
+    let _ = n_general;
     let pats: Vec<T> = pats.into_iter().filter(|t| !t.has_quot()).map(|t| t.smt_form()).filter(|t| t.cost() <= COST_LIMIT).collect();
     let subjects = {
         let mut all: Vec<Vec<u32>> = vec![vec![]];
@@ -1003,11 +1024,61 @@ pub fn drive_c10(a: &Args) {
     println!("{{\"family\":\"c10\",\"patterns\":{},\"subjects\":{},\"events\":{}}}", njobs, subjects.len(), n);
 }
 
+/// the single string a literal-like pattern is made of (used to craft subjects, never to judge)
+fn literal_of(t: &T) -> Option<Vec<u32>> {
+    match t {
+        T::Eps => Some(vec![]),
+        T::Chr(c) => Some(vec![*c]),
+        T::Str(w) => Some(w.clone()),
+        T::Pow(a, n) => literal_of(a).map(|w| (0..*n).flat_map(|_| w.clone()).collect()),
+        T::SmtLoop(a, i, j) | T::Loop(a, i, Some(j)) if i == j => literal_of(a).map(|w| (0..*i).flat_map(|_| w.clone()).collect()),
+        T::Cat2(a, b) => match (literal_of(a), literal_of(b)) {
+            (Some(mut x), Some(y)) => { x.extend(y); Some(x) }
+            _ => None,
+        },
+        T::CatL(v) => {
+            let mut out = vec![];
+            for x in v {
+                out.extend(literal_of(x)?);
+            }
+            Some(out)
+        }
+        _ => None,
+    }
+}
+
 fn run_replace_jobs(items: Vec<(usize, T)>, subjects: Vec<Vec<u32>>, repls: Vec<Vec<u32>>, seed: u64, thorough: bool) -> Vec<Value> {
     std::thread::spawn(move || {
         let mut rng = Rng::new(seed);
         let mut out = vec![];
         for (id, t) in items {
+            let mut subjects = subjects.clone();
+            if let Some(w) = literal_of(&t) {
+                if w.len() >= 3 {
+                    // around the literal: itself, embedded, doubled, truncated, each proper prefix as a decoy
+                    subjects.truncate(15);
+                    let mut emb = vec![120];
+                    emb.extend(w.iter());
+                    emb.push(121);
+                    let mut dbl = w.clone();
+                    dbl.extend(w.iter());
+                    let mut decoy = vec![120];
+                    decoy.extend(w[..w.len() - 1].iter());
+                    decoy.push(121);
+                    decoy.extend(w.iter());
+                    subjects.push(w.clone());
+                    subjects.push(emb);
+                    subjects.push(dbl);
+                    subjects.push(w[..w.len() - 1].to_vec());
+                    subjects.push(decoy);
+                    for k in 1..w.len().min(4) {
+                        let mut p = vec![120];
+                        p.extend(w[..k].iter());
+                        p.push(121);
+                        subjects.push(p);
+                    }
+                }
+            }
             let built = guarded(|| t.build_smt());
             let e = match built {
                 Ok(e) => e,
